@@ -621,7 +621,8 @@ static int serializeRaw(const KSI_TLV *tlv, unsigned char *buf, size_t buf_size,
 			KSI_pushError(tlv->ctx, res = KSI_INVALID_ARGUMENT, NULL);
 			goto cleanup;
 		}
-		memcpy(buf + buf_size - payloadLength, tlv->datap, payloadLength);
+		/* The payload may live in the buffer it is serialized into (a nested element re-encoded in place). */
+		memmove(buf + buf_size - payloadLength, tlv->datap, payloadLength);
 	}
 
 	*buf_len = payloadLength;
